@@ -11,6 +11,7 @@ pub fn run(scn: &Value) -> Value {
         "expire" => expire(scn),
         "storage_calls" => storage_calls(scn),
         "task_readers" => task_readers(scn),
+        "task_mutators" => task_mutators(scn),
         other => json!({"error": format!("unknown model scenario {other}")}),
     }
 }
@@ -222,6 +223,16 @@ pub fn task_readers(scn: &Value) -> Value {
     let b = uuid_of(200);
     let mut ops = Operations::new();
     ops.push(Operation::Create { uuid: a });
+    let in_ws = scn["working_set"].as_array().map(|w| w.iter().any(|x| x.as_u64() == Some(100))).unwrap_or(false);
+    if in_ws {
+        // the task is numbered in the working set whatever its present status: it was pending once
+        ops.push(Operation::Update { uuid: a, property: "status".into(), old_value: None, value: Some("pending".into()), timestamp: ts_of(&json!(0)) });
+        block_on(rep.commit_operations(std::mem::take(&mut ops))).expect("commit");
+        let has_status = scn["task"].get("status").is_some();
+        if !has_status {
+            ops.push(Operation::Update { uuid: a, property: "status".into(), old_value: Some("pending".into()), value: None, timestamp: ts_of(&json!(0)) });
+        }
+    }
     if let Some(o) = scn["task"].as_object() {
         for (k, v) in o {
             ops.push(Operation::Update {
@@ -233,9 +244,13 @@ pub fn task_readers(scn: &Value) -> Value {
             });
         }
     }
-    ops.push(Operation::Create { uuid: b });
-    for (k, v) in [("status", "pending"), ("description", "other")] {
-        ops.push(Operation::Update { uuid: b, property: k.into(), old_value: None, value: Some(v.into()), timestamp: ts_of(&json!(0)) });
+    let other = scn["other"].as_str().unwrap_or("pending");
+    if other != "missing" {
+        ops.push(Operation::Create { uuid: b });
+        ops.push(Operation::Update { uuid: b, property: "description".into(), old_value: None, value: Some("other".into()), timestamp: ts_of(&json!(0)) });
+        if other != "no-status" {
+            ops.push(Operation::Update { uuid: b, property: "status".into(), old_value: None, value: Some(other.into()), timestamp: ts_of(&json!(0)) });
+        }
     }
     block_on(rep.commit_operations(ops)).expect("commit");
     let mut panics = Vec::new();
@@ -277,4 +292,217 @@ pub fn task_readers(scn: &Value) -> Value {
         catch("Task::get_timestamp", &mut panics, AssertUnwindSafe(|| { let _ = t.get_timestamp(key); }));
     }
     json!({"panics": panics})
+}
+
+// ----------------------------------------------------------------------------- task mutators (C19)
+
+fn sval(v: &Value) -> Option<String> {
+    match v {
+        Value::Null => None,
+        Value::String(s) => Some(s.clone()),
+        Value::Object(o) => {
+            let id = o.get("tok").or_else(|| o.get("id")).and_then(|x| x.as_i64()).unwrap_or(0);
+            let len = o.get("len").and_then(|x| x.as_u64()).unwrap_or(8) as usize;
+            let mut s = format!("v{id:04}_");
+            while s.len() < len {
+                s.push('x');
+            }
+            Some(s)
+        }
+        other => Some(other.to_string()),
+    }
+}
+
+pub fn task_mutators(scn: &Value) -> Value {
+    use std::collections::BTreeMap;
+    use taskchampion::{Annotation, Status, Tag};
+    let mut problems: Vec<Value> = Vec::new();
+    let mut rep = Replica::new(InMemoryStorage::new());
+    let a = uuid_of(100);
+    let b = uuid_of(200);
+    let exists = scn["exists"].as_bool().unwrap_or(false);
+    let mut setup = Operations::new();
+    setup.push(Operation::Create { uuid: b });
+    setup.push(Operation::Update { uuid: b, property: "status".into(), old_value: None, value: Some("pending".into()), timestamp: ts_of(&json!(0)) });
+    if exists {
+        setup.push(Operation::Create { uuid: a });
+        if let Some(o) = scn["prior"].as_object() {
+            for (k, v) in o {
+                setup.push(Operation::Update { uuid: a, property: k.clone(), old_value: None, value: sval(v), timestamp: ts_of(&json!(0)) });
+            }
+        }
+    }
+    block_on(rep.commit_operations(setup)).expect("setup commit");
+    let mut ops = Operations::new();
+    let mut task = if exists {
+        block_on(rep.get_task(a)).expect("get_task").expect("task exists")
+    } else {
+        block_on(rep.create_task(a, &mut ops)).expect("create_task")
+    };
+    let mut before: BTreeMap<String, String> = task.clone().into_task_data().iter().map(|(k, v)| (k.clone(), v.clone())).collect();
+    let mut first_mutation_done = false;
+    let mut purge = false;
+    let ts = |v: &Value| ts_of(v);
+    for call in scn["calls"].as_array().cloned().unwrap_or_default() {
+        let name = call[0].as_str().unwrap_or("");
+        let n0 = ops.len();
+        let mut want_err = false;
+        let mut explicit_mod = false;
+        let had_end = before.contains_key("end");
+        let was_active = before.contains_key("start");
+        let res: Result<(), taskchampion::Error> = match name {
+            "set_status" => {
+                let st = match call[1].as_str().unwrap_or("") {
+                    "Pending" => Status::Pending,
+                    "Completed" => Status::Completed,
+                    "Deleted" => Status::Deleted,
+                    _ => Status::Recurring,
+                };
+                task.set_status(st, &mut ops)
+            }
+            "set_description" => task.set_description(sval(&call[1]).unwrap(), &mut ops),
+            "set_priority" => task.set_priority(sval(&call[1]).unwrap(), &mut ops),
+            "set_entry" => task.set_entry(if call[1].is_null() { None } else { Some(ts(&call[1])) }, &mut ops),
+            "set_wait" => task.set_wait(if call[1].is_null() { None } else { Some(ts(&call[1])) }, &mut ops),
+            "set_due" => task.set_due(if call[1].is_null() { None } else { Some(ts(&call[1])) }, &mut ops),
+            "set_modified" => {
+                explicit_mod = true;
+                task.set_modified(ts(&call[1]), &mut ops)
+            }
+            "set_value" => {
+                let key = call[1].as_str().unwrap().to_string();
+                explicit_mod = key == "modified";
+                task.set_value(key, sval(&call[2]), &mut ops)
+            }
+            "start" => task.start(&mut ops),
+            "stop" => task.stop(&mut ops),
+            "done" => task.done(&mut ops),
+            "add_tag" | "remove_tag" => {
+                let tag: Tag = call[1].as_str().unwrap().parse().expect("tag");
+                want_err = tag.is_synthetic();
+                if name == "add_tag" { task.add_tag(&tag, &mut ops) } else { task.remove_tag(&tag, &mut ops) }
+            }
+            "add_annotation" => task.add_annotation(Annotation { entry: ts(&call[1]), description: sval(&call[2]).unwrap() }, &mut ops),
+            "remove_annotation" => task.remove_annotation(ts(&call[1]), &mut ops),
+            "set_uda" => {
+                let key = call[1].as_str().unwrap().to_string();
+                want_err = ["status", "modified", "end"].contains(&key.as_str()) || key.starts_with("tag_") || key.starts_with("annotation_") || key.starts_with("dep_");
+                task.set_user_defined_attribute(key, sval(&call[2]).unwrap(), &mut ops)
+            }
+            "remove_uda" => task.remove_user_defined_attribute(call[1].as_str().unwrap().to_string(), &mut ops),
+            "add_dependency" => task.add_dependency(b, &mut ops),
+            "remove_dependency" => task.remove_dependency(b, &mut ops),
+            "purge_target" => {
+                purge = true;
+                continue;
+            }
+            other => {
+                problems.push(json!({"unknown_call": other}));
+                Ok(())
+            }
+        };
+        let new_ops = &ops[n0..];
+        if want_err {
+            if res.is_ok() || !new_ops.is_empty() {
+                problems.push(json!({"reserved_accepted": call}));
+            }
+            continue;
+        }
+        if let Err(e) = res {
+            problems.push(json!({"mutator_err": e.to_string(), "call": call}));
+            continue;
+        }
+        // old values
+        for op in new_ops {
+            if let Operation::Update { property, old_value, value, .. } = op {
+                if before.get(property) != old_value.as_ref() {
+                    problems.push(json!({"old_value": {"prop": property, "recorded": old_value, "was": before.get(property)}}));
+                }
+                match value {
+                    Some(v) => {
+                        before.insert(property.clone(), v.clone());
+                    }
+                    None => {
+                        before.remove(property);
+                    }
+                }
+            }
+        }
+        // modified refreshed once per session, never when set explicitly
+        let mutates = !(name == "start" && was_active);
+        let mod_ops = new_ops.iter().filter(|o| matches!(o, Operation::Update { property, .. } if property == "modified")).count();
+        let mut exp = if explicit_mod { 1 } else { 0 };
+        if mutates && !first_mutation_done && !explicit_mod {
+            exp += 1;
+        }
+        if mutates {
+            first_mutation_done = true;
+        }
+        if mod_ops != exp {
+            problems.push(json!({"modified_refresh": {"call": call, "ops_on_modified": mod_ops, "expected": exp}}));
+        }
+        // end maintained by set_status / done
+        if name == "set_status" || name == "done" {
+            let st = if name == "done" { "Completed" } else { call[1].as_str().unwrap_or("") };
+            let has_end = before.contains_key("end");
+            let want = !(st == "Pending" || st == "Recurring");
+            if has_end != want {
+                problems.push(json!({"end_rule": {"status": st, "had_end": had_end, "has_end": has_end}}));
+            }
+        }
+    }
+    let held: BTreeMap<String, String> = task.clone().into_task_data().iter().map(|(k, v)| (k.clone(), v.clone())).collect();
+    let nops = ops.len();
+    if let Err(e) = block_on(rep.commit_operations(ops)) {
+        problems.push(json!({"commit_err": e.to_string()}));
+    }
+    let stored = block_on(rep.get_task(a)).expect("get_task");
+    match stored {
+        None => {
+            if exists || nops > 0 {
+                problems.push(json!({"stored_missing": true}));
+            }
+        }
+        Some(st) => {
+            let smap: BTreeMap<String, String> = st.clone().into_task_data().iter().map(|(k, v)| (k.clone(), v.clone())).collect();
+            if smap != held {
+                problems.push(json!({"stored_vs_held": {"stored": smap, "held": held}}));
+            }
+            let status = smap.get("status").cloned().unwrap_or_else(|| "pending".to_string());
+            if st.is_active() != smap.contains_key("start") {
+                problems.push(json!({"reader": "is_active"}));
+            }
+            for (tagname, want) in [("PENDING", status == "pending"), ("COMPLETED", status == "completed"), ("DELETED", status == "deleted")] {
+                let tag: Tag = tagname.parse().unwrap();
+                if st.has_tag(&tag) != want {
+                    problems.push(json!({"reader": format!("has_tag {tagname}"), "status": status}));
+                }
+            }
+            let abc: Tag = "abc".parse().unwrap();
+            if st.has_tag(&abc) != smap.contains_key("tag_abc") {
+                problems.push(json!({"reader": "has_tag abc"}));
+            }
+            let ws = block_on(rep.working_set()).expect("ws");
+            let in_ws = ws.by_uuid(a).is_some();
+            let dep_key = format!("dep_{b}");
+            if st.is_blocked() != (in_ws && smap.contains_key(&dep_key)) {
+                problems.push(json!({"reader": "is_blocked", "in_ws": in_ws, "has_dep": smap.contains_key(&dep_key)}));
+            }
+        }
+    }
+    if purge {
+        // purge the dependency target and reload: nothing may still refer to it
+        let mut pops = Operations::new();
+        if let Some(mut td) = block_on(rep.get_task_data(b)).expect("get_task_data") {
+            td.delete(&mut pops);
+        }
+        block_on(rep.commit_operations(pops)).expect("purge commit");
+        if let Some(t2) = block_on(rep.get_task(a)).expect("get_task") {
+            let dm = block_on(rep.dependency_map(false)).expect("depmap");
+            if t2.is_blocked() || dm.dependencies(a).count() > 0 {
+                problems.push(json!({"stale_depmap": {"is_blocked": t2.is_blocked(), "dependencies": dm.dependencies(a).count()}}));
+            }
+        }
+    }
+    json!({"problems": problems, "nops": nops})
 }
